@@ -15,7 +15,10 @@ names = sorted(os.path.basename(os.path.dirname(p)) for p in glob.glob('/verif/s
 names = [n for n in names if n.startswith(prefix)]
 for i, a in enumerate(sys.argv):
     if a == '--match': names = [n for n in names if re.search(sys.argv[i+1], n)]
-free = list(range(slots)); lock = threading.Lock()
+base0 = 0
+for i, a in enumerate(sys.argv):
+    if a == '--slot-base': base0 = int(sys.argv[i+1])
+free = list(range(base0, base0 + slots)); lock = threading.Lock()
 def run(name):
     with lock: slot = free.pop()
     try:
